@@ -149,6 +149,11 @@ def c10_slot(first: int, fate: int, second: int, third: int, g: int, p: int) -> 
                 w.turn()
             holder = w.arbiter._exclusive_running_command
             transient = [(x.name, x.status()) for x in w.arbiter.watchers if x.status() in ('starting', 'stopping')]
+            unanswered = (g >= 1 and r1 is not None and not r1.replies and what not in ('kill',) and FATES[fate] == 'ok')
+            if holder is None and unanswered and not transient:
+                # the first request was sent with waiting and is still unanswered: its operation has not ended, yet nothing holds the slot
+                rt.note('%s (waiting) is still unanswered but the exclusive slot is free: the next request would interleave with it', what)
+                ok = False
             if holder is None and transient:
                 # a watcher in a transient status IS an operation in progress (every start / stop path is exclusive here)
                 rt.note('%s: watcher(s) %r are in a transient status but the exclusive slot is free: the next request would be accepted', what, transient)
